@@ -7,6 +7,12 @@ Local Notation length := List.length.
 (* ------------------------------------------------------------------------------------ *)
 (* small helpers                                                                        *)
 (* ------------------------------------------------------------------------------------ *)
+Lemma p_rev_eq l : p_rev l = rev l.
+Proof. unfold p_rev. symmetry. apply rev_alt. Qed.
+
+Lemma p_trim_right_eq s : p_trim_right s = rev (p_trim_left_rev (rev s)).
+Proof. unfold p_trim_right. now rewrite !p_rev_eq. Qed.
+
 Lemma eqb_false_ne a b : (a =? b) = false -> a <> b.
 Proof. apply N.eqb_neq. Qed.
 
@@ -158,7 +164,7 @@ Lemma p_trim_space_id s a : s <> [] -> nsp (hd a s) = true -> nsp (p_last s) = t
 Proof.
   intros Hne Hh Hl. unfold p_trim_space.
   destruct s as [|c r]; [congruence|]. cbn [hd] in Hh. rewrite (p_trim_left_nsp c r Hh).
-  unfold p_trim_right.
+  rewrite p_trim_right_eq.
   destruct (rev (c :: r)) as [|x y] eqn:ER.
   - apply (f_equal (@rev N)) in ER. rewrite rev_involutive in ER. discriminate.
   - assert (x = p_last (c :: r)).
@@ -1562,7 +1568,7 @@ Qed.
 
 Lemma p_trim_right_pad s pad : is_pad pad = true -> p_trim_right (s ++ pad) = p_trim_right s.
 Proof.
-  intros H. unfold p_trim_right. rewrite rev_app_distr. now rewrite (p_trim_left_rev_pad _ _ (is_pad_rev _ H)).
+  intros H. rewrite !p_trim_right_eq. rewrite rev_app_distr. now rewrite (p_trim_left_rev_pad _ _ (is_pad_rev _ H)).
 Qed.
 
 (* blanks and tabs around a line do not matter *)
@@ -1641,9 +1647,6 @@ Qed.
 (* ------------------------------------------------------------------------------------ *)
 Lemma rev_nil_iff {A} (l : list A) : rev l = [] -> l = [].
 Proof. intros H. apply (f_equal (@rev A)) in H. now rewrite rev_involutive in H. Qed.
-
-Lemma p_rev_eq l : p_rev l = rev l.
-Proof. unfold p_rev. symmetry. apply rev_alt. Qed.
 
 Lemma split_lines_aux_nolf s : forall cur, no_byte cLF s = true ->
   split_lines_aux s cur = match rev cur ++ s with [] => [] | _ => [p_drop_cr (rev cur ++ s)] end.
